@@ -22,6 +22,7 @@ use crate::server_error::ServerResponse;
 use crate::server_error::permission_denied;
 use crate::user_id::UserId;
 use crate::utilities::required_role;
+use crate::utilities::validate_db_name;
 use agdb_api::DbAudit;
 use agdb_api::DbKind;
 use agdb_api::DbResource;
@@ -96,6 +97,8 @@ pub(crate) async fn add(
             "cannot add db to another user",
         ));
     }
+
+    validate_db_name(&db)?;
 
     if server_db
         .find_user_db_id(user.0, &owner, &db)
@@ -318,6 +321,8 @@ pub(crate) async fn copy(
 ) -> ServerResponse<impl IntoResponse> {
     let db_type = server_db.user_db(user.0, &owner, &db).await?.db_type;
     let username = server_db.user_name(user.0).await?;
+
+    validate_db_name(&request.new_db)?;
 
     if server_db
         .find_user_db_id(user.0, &username, &request.new_db)
@@ -651,6 +656,8 @@ pub(crate) async fn rename(
     if request.new_db == db {
         return Ok((StatusCode::CREATED, [("commit-index", String::new())]));
     }
+
+    validate_db_name(&request.new_db)?;
 
     if server_db
         .find_user_db_id(user.0, &username, &request.new_db)
